@@ -7,7 +7,7 @@ declare -A NB=( [C01]="C08 C19 C02" [C02]="C01 C10 C14" [C03]="C16 C04 C10" [C04
  [C09]="C05 C15" [C10]="C14 C03 C02" [C11]="C13 C12" [C12]="C13 C11" [C13]="C12 C11" [C14]="C12 C10" [C15]="C09 C01" [C16]="C03" [C17]="C14" [C18]="C03 C01 C10" [C19]="C08 C01" [C20]="C05 C14" )
 out=/dev/shm/round_$suffix.txt
 for i in $ids; do
-  p=C$i; wt=/tmp/wt/$p
+  p=C$i; wt=/tmp/wt/$p${WTSUF:-}
   [ -f $wt/seeded/patch.diff ] || { echo "$p: no deliverable" | tee -a $out; continue; }
   conf=$(/verif/tools/confirm_seeded.sh $wt 2>&1 | tail -1)
   echo "$conf" | cut -c1-140 | tee -a $out
@@ -17,7 +17,7 @@ for i in $ids; do
     r=$(/verif/tools/eval_wt.sh $wt $c 2>&1)
     rc=$(echo "$r" | head -1 | sed -n 's/.*rc=\([0-9]*\).*/\1/p')
     if [ "$rc" = "1" ]; then caught=$c; echo "  CAUGHT by $c: $(echo "$r" | grep VIOLATION-DETAIL | head -1 | cut -c1-220)" | tee -a $out; 
-       f=$(ls -S /dev/shm/replays_mut/$p/$c/*.json 2>/dev/null | tail -1); [ -n "$f" ] && mkdir -p /verif/corpus/$c && cp "$f" /verif/corpus/$c/seeded-$p$suffix.json
+       f=$(ls -S /dev/shm/replays_mut/$(basename $wt)/$c/*.json 2>/dev/null | tail -1); [ -n "$f" ] && mkdir -p /verif/corpus/$c && cp "$f" /verif/corpus/$c/seeded-$p$suffix.json
        break
     elif [ "$rc" = "2" ]; then echo "  HARNESS-ERROR in $c: $(echo "$r" | grep -E 'HARNESS|Error' | head -2 | cut -c1-200)" | tee -a $out
     else echo "  missed by $c" | tee -a $out; fi
